@@ -269,6 +269,26 @@ def c05():
         vol, cs = gen.end_of_table_volume(rng, rng.choice([12, 16, 32]))
         sess.append(gen.fill_program(rng, "c05-eot-%d" % i, {"vol": vol}, cs, rounds=1, chunk_clusters=(1, 2), use_dirs=False))
     res.append(("sessions", core.campaign("sessions", sess, wd)))
+    # volumes written by other implementations: reserved high bits in used and in free FAT32 entries, no usable FSInfo count (or dirty),
+    # so that the count comes from a scan of the table
+    frg = []
+    for i in range(scale(10, 100)):
+        vol, cs = small_foreign(rng, 32)
+        vol["hi"] = "pattern"
+        vol["free_hi"] = rng.choice([0xC, 0xF, 0x1])
+        vol["fsinfo"] = {"free": rng.choice(["unknown", "exact", 70000]), "next": rng.choice(["unknown", 2])}
+        vol["status"] = rng.choice([0, 0, 1])
+        vol["eoc"] = [0x0FFFFFFF, 0x0FFFFFF8]
+        vol["tree"] = [{"kind": "f", "name": "foreign %d.bin" % k, "sfn": "FORE~%d  BIN" % k, "size": (k + 1) * cs + 3, "pat": k + 1} for k in range(4)]
+        ops = [{"op": "stats"}]
+        for k in range(4):
+            ops += [{"op": "remove", "at": "", "path": "foreign %d.bin" % k}, {"op": "stats"}] if k % 2 == 0 else \
+                   [{"op": "open_file", "at": "", "path": "FOREIGN %d.BIN" % k, "as": "t%d" % k}, {"op": "seek", "h": "t%d" % k, "from": "start", "off": rng.choice([0, 1, cs])},
+                    {"op": "truncate", "h": "t%d" % k}, {"op": "close", "h": "t%d" % k}, {"op": "stats"}]
+        ops += [{"op": "create_file", "at": "", "path": "new.bin", "as": "n"}, {"op": "write_all", "h": "n", "pat": 7, "len": 3 * cs}, {"op": "close", "h": "n"},
+                {"op": "stats"}, {"op": "unmount"}, {"op": "stats"}, {"op": "unmount"}]
+        frg.append({"id": "c05-foreign-%d" % i, "cfg": {"vol": vol}, "ops": ops, "origin": "foreign-count"})
+    res.append(("foreign", core.campaign("foreign", frg, wd)))
     core.finish("C05", LEVEL, res, mc_layer_b(wd), t0,
                 "fill-to-full / delete-all cycles on tiny volumes plus mixed programs with statistics probes; TLC compares the reported count with the "
                 "table of the raw image and judges every NotEnoughSpace against the pre-state",
@@ -295,7 +315,7 @@ def fam_ro(prop, kset, n_prog, n_ops, salt=0):
             elif variant == 3 and kname.startswith("K5"):
                 poke = [[512 + 492, [255, 255, 255, 255]]]  # FSInfo next-free hint unknown
             elif variant == 4:
-                poke = [[status_off(kname), [rng.choice([1, 2, 3])]]]  # dirty / io-error bits set by someone else
+                poke = [[status_off(kname), [rng.choice([1, 2, 3, 0x80, 0xF0, 0x41, 0x04])]]]  # dirty / io-error / other bits set by someone else
             progs.append(gen.ro_program(rng, "ro-%s-%d" % (kname, i), cfg, CS[kname], n_ops, end_setup=end_setup, poke=poke,
                                         end=rng.choice(["unmount", "dropfs"]), no_stats=(i % 12 >= 6)))
     return progs
@@ -650,6 +670,9 @@ def c19():
     for i in range(0, len(lens), 5):
         ascii_progs.append(gen.name_program("f-len-a-%d" % i, cfgn, [("n%03d-" % n + "x" * n)[:n] for n in lens[i:i + 5]], [("open", ("N%03d-" % n + "X" * n)[:n]) for n in lens[i:i + 5]]))
         uni_progs.append(gen.name_program("f-len-u-%d" % i, cfgn, [("\u00e9%03d-" % n + "\u00fc" * n)[:min(n, 127)] for n in lens[i:i + 5]], []))
+    pairs = gen.ascii_bit5_batches()
+    for i, (names, lookups) in enumerate(pairs):
+        ascii_progs.append(gen.name_program("f-bit5-%d" % i, cfgn, names, lookups))
     res = []
     res.append(("alloc-ascii", core.feature_pairs("alloc-ascii", ascii_progs, wd, "noalloc")))
     res.append(("alloc-unicode", core.feature_pairs("alloc-unicode", uni_progs, wd, "noalloc")))
